@@ -28,7 +28,8 @@ EXPLANATION = ("Codec agreement. R1 (triplet layout): for every Codec<T> instant
                "of the argument's storage except the two documented by-reference codecs; the decoded argument store is used only "
                "inside the decode function's call tree (formatted before the producer may overwrite the bytes)."
                " R6g-j: owned copies of class-type arguments stay alive in a linked list while the format slots refer to them; the configured sanitisation is applied to every statement it is configured for. R8c: the sanitiser's two passes follow the predicate with the same polarity. R10 (= C12.R9): runtime-metadata statements keep exactly their message. R11: InlinedVector (the size cache): union arm by capacity, index below size, growth copies all elements. R12: C-string / char-array encoders write the terminator the decoder's strnlen relies on."
-               ' R14: DirectFormatCodec::encode formats the argument into the queue buffer at the cursor, limited to the cached length it then advances by.')
+               ' R14: DirectFormatCodec::encode formats the argument into the queue buffer at the cursor, limited to the cached length it then advances by.'
+               " R1's witness nests StringRef in a tuple and a pair (each composite decodes an element with the codec of the encoded type); a braced list of decode_arg calls is folded left to right.")
 NOT_DECIDED = ("Equality of the formatted text with synchronous formatting for every value (NaN, locale, extremes); the hex-escape "
                "arithmetic of the non-printable sanitiser; strings longer than 4 GiB; alignment arithmetic of the placement codec "
                "beyond constant agreement.")
